@@ -156,6 +156,18 @@ CLAIMS["C03"] = (
     "trusts rustc's MIR; std collections/iterators (Rev, BTreeMap/HashMap get/insert)",
     "DESIGN.md §5 C03")
 
+CLAIMS["C04"] = (
+    "cross-site orientation agreement of the parent chain (producer reverse <-> consumers first()/Rev); dominance/edge conditions of the lineage loops in finalize_templates; "
+    "callee identity (entry().or_insert, rposition); index-expression tables and set/restore must-pass-through in the VM's RenderBlock / super() arms",
+    "Static decision of the clauses of C04 that are choices visible in the code: the parent chain's orientation agrees between find_parents, the root choice of render and "
+    "both lineage loops (nearest ancestor first); a lineage starts with the own definition, appends an ancestor's definition only where the ancestor defines the block, only "
+    "while the definition just appended calls super() and only if the own one does; inherited blocks never overwrite (entry().or_insert); orphan child blocks are refused; "
+    "RenderBlock uses the most-derived template's lineage, element 0, level 0; super() takes the topmost matching active block, runs level + 1 and restores the level on "
+    "every path; the render runs the root's chunk on the most-derived template's VM; single-block rendering captures exactly on `capture_block == Some(this block)` and "
+    "returns that buffer. For all chains and nestings. Does NOT decide that these compose to the documented output (value-level), nor order independence beyond C10.DERIVED.",
+    "trusts rustc's MIR; std Vec::reverse / Rev / HashMap entry API",
+    "DESIGN.md §5 C04")
+
 NA_REASONS = {
     "C04": "which block definition wins and what super() yields depend on lineage values computed at registration; no structural "
            "clause short of re-implementing the resolver; the unbounded-recursion shape found is handled under C07/C11",
